@@ -88,6 +88,7 @@ func cmdCheck(args []string) int {
 		return 2
 	}
 	resolveClosureAliases(l, cs)
+	currentProp = *prop
 	var keys []string
 	seenFC := map[*FuncContract]bool{}
 	for k, fc := range cs.Funcs {
